@@ -37,8 +37,18 @@ func verifRewriteShape(rw *DNSRewrite) bool {
 		v, ok := rw.Value.(*DNSSVCB)
 		return ok && v != nil
 	case 12: // PTR
+		// a fully-qualified name: non-empty labels, each followed by one dot
 		s, ok := rw.Value.(string)
-		return ok && len(s) > 0 && s[len(s)-1] == '.'
+		if !ok || len(s) < 2 || s[len(s)-1] != '.' || s[0] == '.' {
+			return false
+		}
+		noEmptyLabel := true
+		for i := 0; i+1 < len(s); i++ {
+			if s[i] == '.' && s[i+1] == '.' {
+				noEmptyLabel = false
+			}
+		}
+		return noEmptyLabel
 	case 16: // TXT
 		_, ok := rw.Value.(string)
 		return ok
